@@ -50,7 +50,9 @@ Frags(k) ==
                       [t |-> <<" ", o, "a", c>>, v |-> <<"a">>],                                        \* blank before the argument
                       [t |-> <<o, "\\vcs", "a", c>>, v |-> <<"\\vcs", "a">>]}
 
-Followers == {<<>>, <<"x">>, <<"[", "x", "]">>, <<"*">>, <<" ", "x">>, <<"\\relax", "x">>, <<"(", "x">>, <<"{", "x", "}">>}
+(* ... including control symbols that are NAMED like an opening delimiter: they are not delimiters *)
+Followers == {<<>>, <<"x">>, <<"[", "x", "]">>, <<"*">>, <<" ", "x">>, <<"\\relax", "x">>, <<"(", "x">>, <<"{", "x", "}">>,
+              <<"\\[", "x">>, <<"\\(", "x">>}
 
 RECURSIVE Sigs(_)
 (* the star modifier can only be the first specification *)
